@@ -20,7 +20,7 @@ Proof. exact history_refines_from_stmt. Qed.
 
 Theorem C17_frame_vec : forall B st o j, 2 <= B -> all_wf B st ->
   match o with
-  | VPush k _ | VPop k | VSet k _ _ | VTrunc k _ | VExtend k _ | VDrop k => j <> k
+  | VPush k _ | VPop k | VSet k _ _ | VTrunc k _ | VExtend k _ | VMapFrom k _ _ | VDrop k => j <> k
   | _ => True
   end ->
   j < length (ivs st) ->
@@ -30,7 +30,7 @@ Proof. exact frame_vec_stmt. Qed.
 
 Theorem C17_frame_slice : forall B st o j, 2 <= B -> all_wf B st ->
   match o with
-  | SPush k _ | SPop k | SSet k _ _ | SSlice k _ _ | SExtend k _ | SExtendFrom k _ | SDrop k => j <> k
+  | SPush k _ | SPop k | SSet k _ _ | SSlice k _ _ | SExtend k _ | SExtendFrom k _ | SMap k _ | SDrop k => j <> k
   | _ => True
   end ->
   j < length (iss st) ->
@@ -135,6 +135,21 @@ Proof. exact bit_ops_agree_stmt. Qed.
 
 Theorem C17_leaf_mask_agrees : forall k idx, Nat.land idx (2 ^ k - 1) = idx mod 2 ^ k.
 Proof. exact leaf_mask_agrees_stmt. Qed.
+
+(* ---- mutable iteration: [iter_mut_starting_at(idx)] with a consumer that takes [bd] elements and
+   replaces each by [f] of it; [Slice::iter_mut] *)
+Theorem C17_iter_mut_from : forall A B (f : A -> A) (v : @vec A) idx bd, 2 <= B -> wf B v ->
+  (idx <= vlen v ->
+   exists v', vmap_from B v idx f bd = Some v' /\ wf B v'
+              /\ to_list v' = firstn idx (to_list v)
+                              ++ (map f (firstn bd (skipn idx (to_list v))) ++ skipn bd (skipn idx (to_list v)))
+              /\ vlen v' = vlen v)
+  /\ (vlen v < idx -> vmap_from B v idx f bd = None).
+Proof. exact iter_mut_from_stmt. Qed.
+
+Theorem C17_slice_iter_mut : forall A B (s : @slice A) (f : A -> A), 2 <= B -> swf B s ->
+  exists s', smap B s f = Some s' /\ swf B s' /\ sl_list s' = map f (sl_list s).
+Proof. exact slice_iter_mut_stmt. Qed.
 
 (* ---- T1: the same operations over an explicit heap of reference-counted nodes (Vector/RcHeap.v).
    [hinv] = counts are exact w.r.t. the live handles; an operation through the handle in the middle
